@@ -64,6 +64,26 @@ CHECKS = {
                      'search with graph / reference-model oracles; exhaustive '
                      'small-graph sub-batch for the cycle analysis',
     },
+    'C13': {
+        'category': 'exploration',
+        'text': 'Seeded histories of evaluations under a virtual clock and a '
+                'seeded RNG: a workbook with NOW/TODAY/RAND/RANDBETWEEN at '
+                'random depth is turned into several executables (model, '
+                'JSON re-import, deepcopy, dill, ExcelModel.compile results '
+                'and their copies, single compiled formulas) evaluated 2-6 '
+                'times each in a seeded interleaving; the clock advances on '
+                'every read (crossing midnight inside a calculation) and '
+                'jumps to unused days, forwards or backwards, between '
+                'evaluations. Every clock cell must equal its own formula '
+                'at a clock reading taken during that very evaluation '
+                '(decided exactly), RAND-injective cells must change, '
+                'ranges/integrality hold, dependents equal their formula on '
+                'the observed volatile value.',
+        'design_ref': 'DESIGN.md 4.4',
+        'technique': 'deterministic simulation: virtual clock and seeded RNG '
+                     'behind module seams, seeded interleaving of '
+                     'evaluations over executables, clock-reading oracle',
+    },
 }
 
 NOT_APPLICABLE = {
